@@ -997,7 +997,11 @@ func (fa *FuncAn) CallArgs(ci ssa.CallInstruction) []string {
 	if c.IsInvoke() {
 		vs = append(vs, c.Value)
 	}
-	vs = append(vs, c.Args...)
+	if f := c.StaticCallee(); f != nil && !c.IsInvoke() {
+		vs = append(vs, refOrderArgs(f, c.Args)...)
+	} else {
+		vs = append(vs, c.Args...)
+	}
 	out := make([]string, len(vs))
 	for i, v := range vs {
 		out[i] = fa.R.R(v)
